@@ -221,10 +221,12 @@ Deliver(c) ==
              IF fr.rest = <<>> THEN Ret(c0, ListV(done))
              ELSE ApplyFromBuiltin(c0, [fr EXCEPT !.done = done, !.rest = Tail(@)], fr.f, <<fr.rest[1]>>)
       [] fr.t = "bapply" -> IF ~ok THEN Raise(c0, v.k, v.v) ELSE Ret(c0, v)
-      \* (the machine installs without the version check of Def.SwapLoop: the grammars it is run on have no update
-      \* function that writes the atom being swapped)
+      \* swap!: compare-and-set on the version read with the value; a lost attempt applies the function again
       [] fr.t = "bswap" -> IF ~ok THEN Raise(c0, v.k, v.v)
-                           ELSE Ret([c0 EXCEPT !.st.atoms[fr.atom] = v, !.st.avers[fr.atom] = @ + 1], v)
+                           ELSE IF c0.st.avers[fr.atom] = fr.ver
+                           THEN Ret([c0 EXCEPT !.st.atoms[fr.atom] = v, !.st.avers[fr.atom] = @ + 1], v)
+                           ELSE ApplyFromBuiltin(c0, [fr EXCEPT !.ver = c0.st.avers[fr.atom]], fr.f,
+                                                 <<c0.st.atoms[fr.atom]>> \o fr.extra)
       [] fr.t = "bupdate" ->
            IF ~ok THEN Raise(c0, v.k, v.v)
            ELSE IF fr.coll.t = "map" THEN Ret(c0, MapV(MapPut(fr.coll.m, fr.key, v)))
@@ -245,7 +247,9 @@ BuiltinCall(c, name, a) ==
                             ELSE ApplyFromBuiltin(c, Fr("bmap", [f |-> a[1], done |-> <<>>, rest |-> Tail(a[2].xs)]), a[1], <<a[2].xs[1]>>)
          [] name = "swap!" -> IF n < 2 THEN Unspec(c)
                               ELSE IF a[1].t # "atom" THEN RaiseErr(c, "builtin")
-                              ELSE ApplyFromBuiltin(c, Fr("bswap", [atom |-> a[1].i]), a[2], <<c.st.atoms[a[1].i]>> \o SubSeq(a, 3, n))
+                              ELSE ApplyFromBuiltin(c, Fr("bswap", [atom |-> a[1].i, ver |-> c.st.avers[a[1].i], f |-> a[2],
+                                                                   extra |-> SubSeq(a, 3, n)]),
+                                                    a[2], <<c.st.atoms[a[1].i]>> \o SubSeq(a, 3, n))
          [] name = "eval" -> IF n # 1 THEN Unspec(c) ELSE Sub(c, Fr("bapply", <<>>), a[1], 1)
          [] name = "update" ->
               IF n # 3 THEN RaiseErr(c, "builtin")
